@@ -242,6 +242,33 @@ def run(ctx) -> None:
             relate(ctx, "climatology", "time-shift", dt_, "qartod.climatology_test",
                    {"config": mem, "inp": X(x), "tinp": TT(t), "zinp": zz},
                    {"config": mem2, "inp": X(x), "tinp": TT(ts), "zinp": zz}, ident, {**case, "members": mem})
+        # ---- climatology member whose absolute span ENDS on a midnight, samples through the following day, shifted (data and
+        #      span together) by something that is not a whole number of days
+        if n >= 2:
+            mid = gen.T0 - (gen.T0 % 86400)
+            tm_ = [mid + 3600 * k for k in range(n)]
+            iso_ = lambda s_: str(gen.times([s_], "dt64s")[0])  # noqa: E731
+            sh_ = rng.choice([3600 * 5 + 7, 1800, -7200 - 1, 86400 + 3600])
+            memA = [{"tspan": [iso_(mid - 86400), iso_(mid)], "vspan": [lo, hi], "fspan": [lo - 1, hi + 1]}]
+            memB = [{"tspan": [iso_(mid - 86400 + sh_), iso_(mid + sh_)], "vspan": [lo, hi], "fspan": [lo - 1, hi + 1]}]
+            relate(ctx, "climatology", "time-shift-span-ending-at-midnight", sh_, "qartod.climatology_test",
+                   {"config": memA, "inp": X(x), "tinp": TT(tm_), "zinp": X([None] * n)},
+                   {"config": memB, "inp": X(x), "tinp": TT([v + sh_ for v in tm_]), "zinp": X([None] * n)}, ident, {**case, "t": tm_, "members": memA})
+        # ---- the same relations with the values carried in masked arrays (whatever lies under the mask stays there)
+        if n >= 2 and any(v is None for v in x):
+            hid = rng.choice([0.0, 3.0, -50.0, 1000.0])
+            MX = lambda v: np.ma.MaskedArray(np.array([hid if q is None else q for q in v], dtype=float), mask=[q is None for q in v])  # noqa: E731
+            zq = [float(k) for k in range(n)]
+            pq = {"suspect_threshold": rng.choice([None, 0, 0.25, 0.5]), "fail_threshold": rng.choice([None, -0.5, -0.25, 0])}
+            relate(ctx, "density_inversion", "offset-masked-carrier", c, "qartod.density_inversion_test",
+                   {"inp": MX(x), "zinp": X(zq), **pq}, {"inp": MX(off(x, c)), "zinp": X(zq), **pq}, ident, {**case, "z": zq, "params": pq, "hidden_value": hid})
+            relate(ctx, "rate_of_change", "offset-masked-carrier", c, "qartod.rate_of_change_test",
+                   {"inp": MX(x), "tinp": TT(t), "threshold": 0.01}, {"inp": MX(off(x, c)), "tinp": TT(t), "threshold": 0.01}, ident,
+                   {**case, "hidden_value": hid})
+            for meth in ("average", "differential"):
+                relate(ctx, f"spike-{meth}", "offset-masked-carrier", c, "qartod.spike_test",
+                       {"inp": MX(x), "suspect_threshold": 0.5, "fail_threshold": 2, "method": meth},
+                       {"inp": MX(off(x, c)), "suspect_threshold": 0.5, "fail_threshold": 2, "method": meth}, ident, {**case, "hidden_value": hid})
         # ---- speed: time shift
         lon = [None if rng.random() < 0.08 else 10.0 + 0.25 * rng.randrange(0, 12) for _ in range(n)]
         lat = [None if rng.random() < 0.08 else 50.0 + 0.125 * rng.randrange(0, 12) for _ in range(n)]
@@ -330,6 +357,11 @@ def run(ctx) -> None:
             fl = {"suspect_threshold": ks * D, "fail_threshold": kf * D, "tolerance": rng.choice([0.5, 1.5])}
             local("flat_line", "qartod.flat_line_test", {"inp": X(x), "tinp": TT(tr), **fl}, "inp", x,
                   lambda p_: set(range(p_, p_ + max(ks, kf) + 1)), fl)
+            if D == 60:
+                # durations that are not whole multiples of the step: the window is floor(duration / step) steps long
+                fl2 = {"suspect_threshold": ks * D + rng.choice([31, 42, 59]), "fail_threshold": kf * D + rng.choice([35, 50]), "tolerance": fl["tolerance"]}
+                local("flat_line-fractional-durations", "qartod.flat_line_test", {"inp": X(x), "tinp": TT(tr), **fl2}, "inp", x,
+                      lambda p_: set(range(p_, p_ + max(ks, kf) + 1)), fl2)
             per = max(D, rng.choice([2 * D, 3 * D + 1, (n - 1) * D, n * D + 7]))  # also windows as long as the whole record
             for kind in ("std", "range"):
                 at = {"suspect_threshold": 1.1, "fail_threshold": 0.3, "check_type": kind, "test_period": per}
